@@ -746,10 +746,21 @@ func (k *KDC) issue(a issueArgs) []byte {
 	for _, pt := range a.pt {
 		switch pt.Kind {
 		case "enc-flip":
+			// Arg 0: a random byte; n > 0: byte n-1; n < 0: the n-th byte from the end (the integrity
+			// checksum sits at the end: its last byte, and both sides of where a 96-, 128-, 160- or
+			// 192-bit checksum starts)
 			i := a.r.Intn(len(enc.Cipher))
+			if pt.Arg > 0 && int(pt.Arg) <= len(enc.Cipher) {
+				i = int(pt.Arg) - 1
+			} else if pt.Arg < 0 && int(-pt.Arg) <= len(enc.Cipher) {
+				i = len(enc.Cipher) + int(pt.Arg)
+			}
 			enc.Cipher[i] ^= 1 << uint(a.r.Intn(8))
 		case "enc-trunc":
 			n := 1 + a.r.Intn(len(enc.Cipher))
+			if pt.Arg > 0 && int(pt.Arg) < len(enc.Cipher) {
+				n = int(pt.Arg)
+			}
 			enc.Cipher = enc.Cipher[:len(enc.Cipher)-n]
 		case "enc-extend":
 			enc.Cipher = append(enc.Cipher, a.r.Bytes(1+a.r.Intn(16))...)
